@@ -295,6 +295,31 @@ class Cli:
         self.emit({'ev': 'TREE', 'exitc': rc3, 'exitd': rc4, 'equal': sha(f + '.pipe.back') == want, 'desc': desc + ' stdin/stdout', 'detail': ''})
         self.runs += 4
 
+    def big_files(self, rnd, k, opts, desc, sizes):
+        """a tree with files larger than the usual block sizes (several blocks per file, blocks of 8..16 MiB at the high levels)"""
+        t = os.path.join(self.root, 'b%d' % k)
+        os.makedirs(os.path.join(t, 'sub'), exist_ok=True)
+        for i, n in enumerate(sizes):
+            with open(os.path.join(t, ['', 'sub'][i % 2], 'big%d.dat' % i), 'wb') as fh:
+                chunk = gen_bytes(rnd, ['text', 'runs', 'dna'][i % 3], 1 << 20)
+                for off in range(0, n, len(chunk)):
+                    fh.write(chunk[:min(len(chunk), n - off)])
+                    chunk = chunk[7:] + chunk[:7]
+        open(os.path.join(t, 'small.txt'), 'wb').write(b'small file\n')
+        snap = tree_digest(t)
+        o1, o2 = t + '.out', t + '.back'
+        os.makedirs(o1)
+        os.makedirs(o2)
+        rc1, out1 = self.run(['-c', '-i', t, '-o', o1, '-f'] + opts, timeout=1200)
+        rc2, out2 = self.run(['-d', '-i', o1, '-o', o2, '-f', '-j', str(rnd.choice([1, 4]))], timeout=1200)
+        back = tree_digest(o2)
+        self.emit({'ev': 'INPUTS', 'same': tree_digest(t) == snap, 'desc': desc})
+        self.emit({'ev': 'TREE', 'exitc': rc1, 'exitd': rc2, 'equal': back == snap, 'desc': desc + ' big files %s' % (sizes,),
+                   'detail': (out1[-300:] if rc1 else '') + (out2[-300:] if rc2 else '')})
+        self.runs += 2
+        for d in (o1, o2, t):
+            shutil.rmtree(d, ignore_errors=True)
+
     def stdout_rm(self, rnd, k, opts, desc):
         """single file compressed to stdout with --rm (stdout redirected to a file): the source may only disappear
         once everything has been written to stdout; then the way back through stdin"""
